@@ -15,10 +15,10 @@ open Model.AsmLex
 /-! ## table types -/
 
 inductive OpKind where
-  | reg (cls : String)
+  | reg (cls : Nat)                  -- register class, index into `Config.regClasses`
   | int
   | str
-  | cons (opts : List String)        -- one of these constructor classes (names in the same table)
+  | cons (opts : List Nat)           -- one of these constructor classes (indices into `Config.syntaxes`)
   | other (d : String)               -- python `set` / `RegisterSet` (arm/thumb push/pop): not modelled
   deriving Repr, DecidableEq, Inhabited
 
@@ -74,16 +74,18 @@ inductive Leaf where
   | word (s : List Char)
   | ws (s : List Char)
   | glyph (c : Char)
-  | reg (cls : String)
+  | reg (cls : Nat)
   | int
   | label
   | other (d : String)
   deriving Repr, DecidableEq, Inhabited
 
-def lookup (tab : List SynDesc) (n : String) : Option SynDesc := tab.find? (·.name == n)
+def lookup (tab : List SynDesc) (i : Nat) : Option SynDesc := tab[i]?
+
+def lookupName (tab : List SynDesc) (n : String) : Option SynDesc := tab.find? (·.name == n)
 
 /-- flattenings of one element, given the flattenings of a constructor-option list -/
-def headLeaves (sub : List String → List (List Leaf)) : Elem → List (List Leaf)
+def headLeaves (sub : List Nat → List (List Leaf)) : Elem → List (List Leaf)
   | .word s => [[.word s.toList]]
   | .ws s => [[.ws s.toList]]
   | .glyph c => [[.glyph c]]
@@ -94,7 +96,7 @@ def headLeaves (sub : List String → List (List Leaf)) : Elem → List (List Le
   | .op _ (.cons opts) => sub opts
 
 /-- flattenings of an element list -/
-def expandElems (sub : List String → List (List Leaf)) : List Elem → List (List Leaf)
+def expandElems (sub : List Nat → List (List Leaf)) : List Elem → List (List Leaf)
   | [] => [[]]
   | e :: es => (headLeaves sub e).flatMap fun h => (expandElems sub es).map fun t => h ++ t
 
@@ -110,7 +112,7 @@ def expand (tab : List SynDesc) : Nat → List Elem → List (List Leaf)
       | none => [[.other "missing"]]) es
 
 /-- one flattening of an element, selected by option indices (depth first, left to right) -/
-def headChoice (sub : List String → List Nat → Option (List Leaf × List Nat)) :
+def headChoice (sub : List Nat → List Nat → Option (List Leaf × List Nat)) :
     Elem → List Nat → Option (List Leaf × List Nat)
   | .word s, ch => some ([.word s.toList], ch)
   | .ws s, ch => some ([.ws s.toList], ch)
@@ -121,7 +123,7 @@ def headChoice (sub : List String → List Nat → Option (List Leaf × List Nat
   | .op _ (.other d), ch => some ([.other d], ch)
   | .op _ (.cons opts), ch => sub opts ch
 
-def chooseElems (sub : List String → List Nat → Option (List Leaf × List Nat)) :
+def chooseElems (sub : List Nat → List Nat → Option (List Leaf × List Nat)) :
     List Elem → List Nat → Option (List Leaf × List Nat)
   | [], ch => some ([], ch)
   | e :: es, ch =>
@@ -220,8 +222,8 @@ def piecesOK : List Elem → Bool
 def regOK (r : RegDesc) : Bool :=
   piecesOK r.pieces && (r.pieces.flatMap pieceStr == r.name.toList)
 
-def regClassOK (cfg : Config) (c : String) : Bool :=
-  match cfg.regClasses.find? (·.name == c) with
+def regClassOK (cfg : Config) (c : Nat) : Bool :=
+  match cfg.regClasses[c]? with
   | some rc => rc.regs.all regOK
   | none => false
 
@@ -272,6 +274,21 @@ def chainOK : List Leaf → Bool
 /-- the decidable condition of theorem (1) -/
 def wellSpaced (cfg : Config) (ls : List Leaf) : Bool := ls.all (leafOK cfg) && chainOK ls
 
+/-- every register of every class prints as its pieces (checked once per configuration) -/
+def regsOK (cfg : Config) : Bool := cfg.regClasses.all fun rc => rc.regs.all regOK
+
+/-- `leafOK` without re-checking the register class (that is `regsOK`) -/
+def leafOKFast (cfg : Config) : Leaf → Bool
+  | .word s => isIdent s
+  | .ws s => !s.isEmpty && s.all isSkip
+  | .glyph c => isGlyph c
+  | .reg c => c < cfg.regClasses.length
+  | .int => true
+  | .label => true
+  | .other _ => false
+
+def wellSpacedFast (cfg : Config) (ls : List Leaf) : Bool := ls.all (leafOKFast cfg) && chainOK ls
+
 /-- flat syntaxes of a class that contain only modelled operand kinds -/
 def supported (ls : List Leaf) : Bool := ls.all fun l => match l with | .other _ => false | _ => true
 
@@ -280,8 +297,8 @@ def expandFuel : Nat := 6
 /-- every instruction syntax of the configuration, flattened in every way, is either unsupported
     (register-set operand) or well spaced -/
 def configWellSpaced (cfg : Config) : Bool :=
-  cfg.syntaxes.all fun s =>
-    !s.isInstr || (expand cfg.syntaxes expandFuel s.elems).all fun ls => !supported ls || wellSpaced cfg ls
+  regsOK cfg && cfg.syntaxes.all fun s =>
+    !s.isInstr || (expand cfg.syntaxes expandFuel s.elems).all fun ls => !supported ls || wellSpacedFast cfg ls
 
 /-- names of instruction classes that have an unsupported flattening -/
 def unsupportedClasses (cfg : Config) : List String :=
@@ -300,7 +317,7 @@ def Fits (cfg : Config) : List Leaf → List Val → Prop
   | .ws _ :: ls, vs => Fits cfg ls vs
   | .glyph _ :: ls, vs => Fits cfg ls vs
   | .reg c :: ls, .reg r :: vs =>
-      (∃ rc, cfg.regClasses.find? (·.name == c) = some rc ∧ r ∈ rc.regs) ∧ Fits cfg ls vs
+      (∃ rc, cfg.regClasses[c]? = some rc ∧ r ∈ rc.regs) ∧ Fits cfg ls vs
   | .int :: ls, .int _ :: vs => Fits cfg ls vs
   | .label :: ls, .label s :: vs => isIdent s = true ∧ Fits cfg ls vs
   | _, _ => False
